@@ -308,6 +308,7 @@ func runConstrCase(o *Oracle, d json.RawMessage, oc *Outcome) {
 		constructorDiff(o, oc, k)
 	}
 	pb := buildConstrProblem(&c)
+	frontEndDiff(o, oc, &c)
 	entry := "solver.Parse" + map[string]string{"card": "CardConstrs", "pb": "PBConstrs"}[c.Front] + "+Solve"
 	if pb.Status == solver.Indet || len(pb.Units) > 0 {
 		oc.Nontrivial = true
@@ -403,5 +404,62 @@ func constructorDiff(o *Oracle, oc *Outcome, k Constr) {
 	oc.Corr++
 	if got != want {
 		oc.Fail("corr", "constructor-mirror", "solver."+name, "%s: Go built %q, the Lean mirror %q", k.String(), got, want)
+	}
+}
+
+
+// frontEndDiff: ParseCardConstrs / ParsePBConstrs (prologue + simplifyCard / simplifyPB) must
+// produce exactly what the Lean mirrors GS.Simplify.parseCardConstrs / parsePBConstrs produce.
+func frontEndDiff(o *Oracle, oc *Outcome, c *ConstrCase) {
+	var groups []string
+	var got, want, name string
+	if c.Front == "card" {
+		name = "ParseCardConstrs"
+		var cc []solver.CardConstr
+		for _, k := range c.Constrs {
+			cc = append(cc, k.card()...)
+		}
+		for _, k := range cc {
+			groups = append(groups, strings.TrimSpace(fmt.Sprintf("%d %s", k.AtLeast, encInts(k.Lits))))
+		}
+		pb := solver.ParseCardConstrs(cc)
+		withCard = true
+		got = strings.TrimRight(fmtProblem(pb, false), " ")
+		withCard = false
+		want = mirrorProblem(o.Ask("pcard " + strings.Join(groups, " ; ")))
+	} else {
+		name = "ParsePBConstrs"
+		var pc []solver.PBConstr
+		for _, k := range c.Constrs {
+			pc = append(pc, k.pb()...)
+		}
+		for _, k := range pc {
+			w := k.Weights
+			if w == nil {
+				w = make([]int, len(k.Lits))
+				for i := range w {
+					w[i] = 1
+				}
+			}
+			g := fmt.Sprint(k.AtLeast)
+			for i := range k.Lits {
+				g += fmt.Sprintf(" %d %d", w[i], k.Lits[i])
+			}
+			groups = append(groups, g)
+		}
+		pc2 := make([]solver.PBConstr, len(pc)) // ParsePBConstrs takes ownership of its argument
+		for i, k := range pc {
+			pc2[i] = solver.PBConstr{Lits: append([]int{}, k.Lits...), AtLeast: k.AtLeast}
+			if k.Weights != nil {
+				pc2[i].Weights = append([]int{}, k.Weights...)
+			}
+		}
+		pb := solver.ParsePBConstrs(pc2)
+		got = strings.TrimRight(fmtProblem(pb, true), " ")
+		want = mirrorProblem(o.Ask("ppb " + strings.Join(groups, " ; ")))
+	}
+	oc.Corr++
+	if got != want {
+		oc.Fail("corr", "frontend-mirror", "solver."+name, "Go parsed to %q, the Lean mirror GS.Simplify to %q (input %s)", got, want, strings.Join(groups, " ; "))
 	}
 }
